@@ -590,11 +590,18 @@ pub fn gen_model(d: &mut Dna, cfg: &GenCfg) -> ModelGame {
 				item: d.below(41),
 				fstart: d.below(41),
 				fend: d.below(41),
+				gstart: d.below(41),
+				gend: d.below(41),
 			};
 		}
 	}
 	let ports = gen_ports(d);
-	let start = gen_start(d, version, &ports, cfg.newer.then_some(760));
+	let mut start = gen_start(d, version, &ports, cfg.newer.then_some(760));
+	if extra.gstart > 0 {
+		let mut x = vec![0u8; extra.gstart];
+		SplitMix(d.u32() as u64 | 1).fill(&mut x);
+		start.extend_from_slice(&x);
+	}
 	let mut m = ModelGame {
 		version,
 		layout,
@@ -612,16 +619,26 @@ pub fn gen_model(d: &mut Dna, cfg: &GenCfg) -> ModelGame {
 	m.frames = gen_frames(d, &m, cfg);
 	let esel = d.u8();
 	let elen = spec::end_size(m.v());
+	let gend = m.extra.gend;
+	let mut end_bytes = |d: &mut Dna| {
+		let mut b = gen_end_bytes(d, elen);
+		if gend > 0 {
+			let mut x = vec![0u8; gend];
+			SplitMix(d.u32() as u64 | 1).fill(&mut x);
+			b.extend_from_slice(&x);
+		}
+		b
+	};
 	m.end = match esel {
-		0..=159 => EndSpec::One(gen_end_bytes(d, elen)),
+		0..=159 => EndSpec::One(end_bytes(d)),
 		160..=209 => {
 			if cfg.finished {
-				EndSpec::One(gen_end_bytes(d, elen))
+				EndSpec::One(end_bytes(d))
 			} else {
 				EndSpec::None
 			}
 		}
-		_ => EndSpec::Two(gen_end_bytes(d, elen)),
+		_ => EndSpec::Two(end_bytes(d)),
 	};
 	m.metadata = gen_metadata(d, cfg);
 	m
